@@ -15,6 +15,7 @@ func init() {
 }
 
 func checkC08(c *Ctx, r *Report) {
+	defer func() { ruleRegexInventory(c, r, "C08.d", "core/validators", "common") }()
 	w := c.W
 	r.NotDecided = append(r.NotDecided,
 		"$ref closure, path-template/parameter matching and parameter uniqueness for arbitrary inputs are delegated to kin-openapi Validate / libopenapi-validator; only the presence of those calls on every success path is decided",
